@@ -189,6 +189,16 @@ func c10Session(sp c10Spec) *sessions.SessionState {
 		s.Nonce = []byte{}
 	case "absent":
 		s = &sessions.SessionState{AccessToken: c10Token(sp.TokLen)}
+	case "manygroups":
+		// TokLen is the number of groups here: directory-style names, highly compressible, so the
+		// encoded session is far larger than the cookies it ends up in
+		s.AccessToken = c10Token(64)
+		s.Groups = make([]string, sp.TokLen)
+		for i := range s.Groups {
+			s.Groups[i] = fmt.Sprintf("CN=group-%05d,OU=Departments,OU=Groups,DC=corp,DC=example,DC=com", i)
+		}
+	case "repetitive":
+		s.AccessToken = strings.Repeat("abcdefgh", sp.TokLen/8+1)[:sp.TokLen]
 	default:
 		panic("c10: unknown variant " + sp.Variant)
 	}
@@ -1046,6 +1056,39 @@ func c10Main(c *Ctx) {
 	}
 	e.byCanon = map[string]string{}
 
+	// large sessions: well beyond the thresholds the windows look at — ten and more parts (two-digit
+	// part numbers), encodings beyond 64 KiB that compress into a few cookies — alone and around a
+	// small session saved in the same browser
+	for _, st := range []string{"cookie", "redis"} {
+		cfg := c10Cfg{Store: st, NameLen: 13}
+		large := []c10Spec{{"plain", 20000}, {"plain", 26000}, {"plain", 28600}, {"plain", 30000}, {"plain", 33000}, {"plain", 45000},
+			{"manygroups", 500}, {"manygroups", 1200}, {"manygroups", 2500}, {"repetitive", 70000}, {"repetitive", 200000}, {"unicode", 30000}}
+		if !c.Quick() {
+			large = append(large, c10Spec{"plain", 60000}, c10Spec{"plain", 100000}, c10Spec{"manygroups", 6000}, c10Spec{"binary", 40000})
+		}
+		small := c10Spec{"plain", 16}
+		for i := range large {
+			if !mine() {
+				continue
+			}
+			if c.Expired() {
+				return
+			}
+			lg := large[i]
+			for _, ops := range [][]c10Op{
+				{{Kind: "save", Spec: &lg}},
+				{{Kind: "save", Spec: &small}, {Kind: "save", Spec: &lg}},
+				{{Kind: "save", Spec: &lg}, {Kind: "save", Spec: &small}},
+				{{Kind: "save", Spec: &lg}, {Kind: "clear"}},
+			} {
+				r := e.exec("large", c10Case{Cfg: cfg, Ops: ops})
+				if len(r.Parts) > 0 {
+					c.SetMax("large_max_cookies_of_one_session", int64(r.Parts[len(r.Parts)-1]))
+				}
+			}
+		}
+	}
+
 	// windows around the thresholds: singles for both stores, ordered pairs for the cookie store
 	for _, p := range plans {
 		if p.Windows == 0 {
@@ -1109,7 +1152,7 @@ func init() {
 			need := []string{"states", "transitions", "outcome_loads_saved", "outcome_none_after_clear", "ambiguous",
 				"last_save_cookies_1", "last_save_cookies_2", "last_save_cookies_3", "last_save_cookies_4",
 				"window_t1_below", "window_t1_above", "window_t2_below", "window_t2_above", "window_t3_below", "window_t3_above",
-				"saves_changing_the_layout", "differential_agreements", "part_bfs", "part_window_single", "part_window_pair", "distinct_nontrivial"}
+				"saves_changing_the_layout", "differential_agreements", "part_bfs", "part_window_single", "part_window_pair", "part_large", "distinct_nontrivial"}
 			for _, k := range need {
 				if c.Counters[k] == 0 {
 					c.Error("vacuous: counter %s is 0", k)
